@@ -170,6 +170,24 @@ def expected : List Expect := [
   ⟨"VotesWithLockTime", allVersions, true, fun _ => toks votesWithLockTime⟩,
   ⟨"RenewalVotesContent", allVersions, true, fun _ => toks renewalVotesContent⟩,
   ⟨"CRCProposalReview", allVersions, true, fun v => toks (crcProposalReview v)⟩,
+  ⟨"Record", allVersions, true, fun _ => toks record⟩,
+  ⟨"SideChainPow", allVersions, true, fun _ => toks sideChainPow⟩,
+  ⟨"ProcessProducer", allVersions, true, fun v => toks (processProducer v)⟩,
+  ⟨"ReturnDepositCoin", allVersions, true, fun _ => toks emptyPayload⟩,
+  ⟨"ActivateProducer", allVersions, true, fun _ => toks activateProducer⟩,
+  ⟨"UpdateVersion", allVersions, true, fun _ => toks updateVersion⟩,
+  ⟨"CRCAppropriation", allVersions, true, fun _ => toks emptyPayload⟩,
+  ⟨"CRCProposalWithdraw", allVersions, true, fun v => toks (crcProposalWithdraw v)⟩,
+  ⟨"CRCProposalRealWithdraw", allVersions, true, fun _ => toks hashList⟩,
+  ⟨"CRAssetsRectify", allVersions, true, fun _ => toks emptyPayload⟩,
+  ⟨"CRCouncilMemberClaimNode", allVersions, true, fun _ => toks crCouncilMemberClaimNode⟩,
+  ⟨"RevertToPOW", allVersions, true, fun _ => toks revertToPOW⟩,
+  ⟨"RevertToDPOS", allVersions, true, fun _ => toks revertToDPOS⟩,
+  ⟨"DPoSV2ClaimReward", allVersions, true, fun v => toks (returnVotes v)⟩,
+  ⟨"DposV2ClaimRewardRealWithdraw", allVersions, true, fun _ => toks hashList⟩,
+  ⟨"ExchangeVotes", allVersions, true, fun _ => toks emptyPayload⟩,
+  ⟨"ReturnVotes", allVersions, true, fun v => toks (returnVotes v)⟩,
+  ⟨"RecordSponsor", allVersions, true, fun _ => toks recordSponsor⟩,
   ⟨"DPOSProposal", [0], true, fun _ => toks dposProposal⟩,
   ⟨"DPOSProposalVote", [0], true, fun _ => toks dposProposalVote⟩,
   ⟨"Confirm", [0], true, fun _ => toks confirm⟩,
